@@ -9,6 +9,7 @@
 """
 import concurrent.futures
 import glob
+import json
 import os
 import shutil
 import subprocess
@@ -73,6 +74,29 @@ def simulate(sc, n, seed, procs):
     return out, got
 
 
+def selftest(sc, trace_file):
+    """The binding must bite: one recorded field of a real trace is corrupted (an execution claims the occurrence
+    after the one that was due) and the trace specification has to reject exactly that line."""
+    lines = open(trace_file).read().splitlines()[:400]
+    ends = [i for i, ln in enumerate(lines) if '"ev":"End"' in ln]
+    starts = [i for i, ln in enumerate(lines) if '"ev":"ExecStart"' in ln and (not ends or i < ends[-1])]
+    if not ends or len(starts) < 2:
+        raise V.Broken("self-test: the first trace file has no complete trace with two executions")
+    lines = lines[:ends[-1] + 1]
+    k = starts[1]
+    ev = json.loads(lines[k])
+    ev["occ"] += 1
+    lines[k] = json.dumps(ev, separators=(",", ":"))
+    fp = os.path.join(sc.sub("selftest"), "corrupted.ndjson")
+    with open(fp, "w") as f:
+        f.write("\n".join(lines) + "\n")
+    val = V.validate_traces(sc, "Scheduler", "SchedulerTraceMC.tla", "SchedulerTrace.cfg", [fp], parallel=1)
+    rej = [ln for _, ln, _ in val["rejections"]]
+    if rej != [k + 1]:
+        raise V.Broken("self-test: a trace with a corrupted occurrence (line %d) was not rejected there (rejections: %s)" % (k + 1, rej))
+    V.log("self-test: corrupted occurrence at line %d rejected" % (k + 1))
+
+
 def run(sc, tier, seed):
     R = V.Result("C17", tier, seed)
     V.build_harness()
@@ -88,6 +112,7 @@ def run(sc, tier, seed):
     beh, nbeh = simulate(sc, ntraces, seed, procs)
     out, meta = V.run_driver(sc, "c17", tier, seed, args=["beh=" + beh, "lanes=%d" % lanes], timeout=2400)
     R.add_meta(meta)
+    selftest(sc, meta["trace_files"][0])
     val = V.validate_traces(sc, "Scheduler", "SchedulerTraceMC.tla", "SchedulerTrace.cfg", meta["trace_files"], timeout=2400)
     R.states += val["states"]
     R.handle_validation(val)
